@@ -16,6 +16,7 @@ def obligations(tier):
     obs.append(ch("vtt_read_tag2", "harness.C04_vtt", timeout=T, functions=V, bounds="'x<' ['/'] + 1-2 arbitrary code points + '>y' (all 1-2 character tag names, known and unknown)"))
     obs.append(ch("vtt_read_tag_ann", "harness.C04_vtt", timeout=T, functions=V, bounds="'x<' + 1-2 code points + ' Ann>y</v>' (tag with annotation: voice vs others)"))
     obs.append(ch("vtt_read_voice_classes", "harness.C04_vtt", timeout=T, functions=V, bounds="voice tag with 0-3 classes (first class = any word character + 'z') and an annotation"))
+    obs.append(ch("vtt_read_timestamp_tag", "harness.C04_vtt", timeout=T, functions=V, exhaustive=True, bounds="cue timestamp tags <mm:ss.ttt>, <hh:mm:ss.ttt>, <hhh:mm:ss.ttt> (3 digit patterns each), once or twice in a line"))
     obs.append(ch("srt_read_text", "harness.C04_plain", timeout=T, functions=("SRTReader.read",), bounds="two text lines of 1-3 and 1-2 arbitrary printable code points"))
     obs.append(ch("mdvd_read_text", "harness.C04_plain", timeout=T, functions=("MicroDVDReader.read",), bounds="two '|'-separated lines of 1-3 and 1-2 code points"))
     L = ("DFXPReader._convert_tag_to_node", "SAMIReader._translate_tag")
@@ -30,7 +31,7 @@ def obligations(tier):
     S = ("SAMIParser.handle_entityref", "handle_charref", "handle_data")
     obs.append(ch("wrap_next_to_inline", "harness.C04_leaf", timeout=T, functions=("DFXPReader._convert_tag_to_node", "SAMIReader._translate_tag"), known="C04-wrap-next-to-inline",
                   bounds="'<i>a</i>' + newline + indentation + 'b c' and the mirrored order, DFXP and SAMI, through the real readers"))
-    obs.append(ch("sami_entityref", "harness.C04_sami", timeout=T, functions=S, bounds="8 named references (amp lt gt quot apos nbsp copy eacute) x following data of 0-3 arbitrary code points"))
+    obs.append(ch("sami_entityref", "harness.C04_sami", timeout=T, functions=S, bounds="11 named references (amp lt gt quot apos nbsp copy eacute Eacute Omega Prime) x following data of 0-3 arbitrary code points"))
     obs.append(ch("sami_charref_dec", "harness.C04_sami", timeout=T, functions=S, bounds="all decimal references 32..999 x following data of 0-3 code points"))
     obs.append(ch("sami_charref_hex", "harness.C04_sami", timeout=T, functions=S, bounds="6 hex references (& < > A e-acute \") x following data of 0-3 code points"))
     return obs
